@@ -353,21 +353,21 @@ Run(s) == IF Terminal(s) THEN s
 Outcome(p, o, dev) == Run(InitState(p, o, dev))
 
 (* ------------------------------ properties ----------------------------- *)
-Done(s) == s.pc = "done"
+Finished(s) == s.pc = "done"
 Ids(s) == Ev([c \in 1..Len(s.vals) |-> s.vals[c].id])
 Known(s) == \A c \in 1..Len(s.vals) : s.vals[c].id # 0
 NPos(p) == Cardinality(Negs(p))
 
 (* returned modes are zero off the active amplitudes, and every active amplitude got its own component back *)
 ZeroOffActive(s) ==
-    Done(s) => /\ \A r \in 1..s.vec.nr : s.vec.src[r] # 0 => s.vec.src[r] = r /\ (r - s.o.pos) \in Act(s.p)
-               /\ ~ReducedRun(s) => \A a \in Act(s.p) : s.vec.src[a + s.o.pos] = a + s.o.pos
-               /\ ReducedRun(s) => \A j \in 1..Len(s.rrows) : s.vec.src[s.rrows[j]] = s.rrows[j]
+    Finished(s) => /\ \A r \in 1..s.vec.nr : s.vec.src[r] # 0 => s.vec.src[r] = r /\ (r - s.o.pos) \in Act(s.p)
+                   /\ ~ReducedRun(s) => \A a \in Act(s.p) : s.vec.src[a + s.o.pos] = a + s.o.pos
+                   /\ ReducedRun(s) => \A j \in 1..Len(s.rrows) : s.vec.src[s.rrows[j]] = s.rrows[j]
 (* value c and column c belong to the same eigenpair, and the value has been fully transformed *)
 Pairing(s) ==
-    Done(s) => /\ Len(s.vec.colid) >= 1
-               /\ \A c \in 1..Min2(Len(s.vals), Len(s.vec.colid)) : s.vals[c].id = s.vec.colid[c]
-               /\ \A c \in 1..Len(s.vals) : s.vals[c].form = IF IsLb(s.o.api) THEN "lam" ELSE "om"
+    Finished(s) => /\ Len(s.vec.colid) >= 1
+                   /\ \A c \in 1..Min2(Len(s.vals), Len(s.vec.colid)) : s.vals[c].id = s.vec.colid[c]
+                   /\ \A c \in 1..Len(s.vals) : s.vals[c].form = IF IsLb(s.o.api) THEN "lam" ELSE "om"
 (* C05 ordering clause.  lambda = -1/mu: positive multipliers are the negative mu, ascending lambda = ascending mu *)
 PosAscending(p, ids, L) == /\ \A c \in 1..L : ids[c] \in Negs(p)
                            /\ \A c \in 1..(L-1) : RLe(Mu(p, ids[c]), RAdd(Mu(p, ids[c+1]), RMul(Slack, MuMax(p))))
@@ -378,7 +378,7 @@ LbOrderTail(s) ==          \* today: all positive multipliers first, ascending, 
     IN /\ Len(s.vals) > NPos(s.p)
        /\ PosAscending(s.p, Ids(s), L)
        /\ \A c \in (L+1)..Len(s.vals) : Ids(s)[c] \notin Negs(s.p)
-LbOrder(s) == (Done(s) /\ IsLb(s.o.api) /\ Regime(s.p) /\ Known(s)) =>
+LbOrder(s) == (Finished(s) /\ IsLb(s.o.api) /\ Regime(s.p) /\ Known(s)) =>
                  LbOrderLiteral(s) \/ (D(s, KF_C05_NonPositiveTail) /\ LbOrderTail(s))
 (* C06 ordering clause, demanded when sort is requested: omega > 0 ascending  (mu > 0 descending) *)
 Collision(p) == LET keys == Ev([i \in 1..NSp(p) |-> RoundKey(Mu(p, i))])      \* sp ascending => keys monotone
@@ -386,26 +386,31 @@ Collision(p) == LET keys == Ev([i \in 1..NSp(p) |-> RoundKey(Mu(p, i))])      \*
 FreqAscending(p, ids) == /\ \A c \in 1..Len(ids) : RSign(Mu(p, ids[c])) > 0
                          /\ \A c \in 1..(Len(ids)-1) : RLe(Mu(p, ids[c+1]), RMul(OnePlusSlack, Mu(p, ids[c])))
 FreqKeysSorted(p, ids) == \A c \in 1..(Len(ids)-1) : RoundKey(Mu(p, ids[c])) <= RoundKey(Mu(p, ids[c+1]))
-FreqOrder(s) == (Done(s) /\ s.o.api \in FreqApis /\ s.o.sort /\ Known(s)) =>
+FreqOrder(s) == (Finished(s) /\ s.o.api \in FreqApis /\ s.o.sort /\ Known(s)) =>
                    \/ FreqAscending(s.p, Ids(s))
                    \/ D(s, KF_C06_RoundedSort) /\ Collision(s.p) /\ FreqKeysSorted(s.p, Ids(s))
-(* sparse and dense agree on the common prefix (C05: in the regime; C06: when sorted) *)
+(* sparse and dense agree on the common prefix (C05: in the regime; C06: when sorted).  For C05 the clause is
+   about the positive multipliers: without KF_C05_NonPositiveTail nothing else is returned in the regime
+   (LbOrder), with it the non-positive tail is exempt (the Cayley ranking of non-positive multipliers
+   depends on the path and on the load scale). *)
 Prefix(a, b) == LET L == Min2(Len(a), Len(b)) IN SubSeq(a, 1, L) = SubSeq(b, 1, L)
+Claimed(s) == IF IsLb(s.o.api) THEN SubSeq(Ids(s), 1, Min2(Len(s.vals), NPos(s.p))) ELSE Ids(s)
 PathsAgree(s) ==
-    (Done(s) /\ s.o.sparse /\ s.o.api \in {"lb", "panel_lb", "freq", "panel_freq"} /\ Known(s)
+    (Finished(s) /\ s.o.sparse /\ s.o.api \in {"lb", "panel_lb", "freq", "panel_freq"} /\ Known(s)
        /\ (IF IsLb(s.o.api) THEN Regime(s.p) ELSE s.o.sort)) =>
         LET d == Outcome(s.p, [s.o EXCEPT !.sparse = FALSE, !.reduced = FALSE], s.dev)
-        IN Done(d) => \/ Prefix(Ids(s), Ids(d))
-                      \/ ~IsLb(s.o.api) /\ D(s, KF_C06_RoundedSort) /\ Collision(s.p)
+        IN Finished(d) => \/ Prefix(Claimed(s), Claimed(d))
+                          \/ ~IsLb(s.o.api) /\ D(s, KF_C06_RoundedSort) /\ Collision(s.p)
 (* scaling B by t divides lambda by t (omega^2 by t): checked on the numbers *)
-LamOrOm2(s, c) == LET m == Mu(s.p, s.vals[c].id) IN IF IsLb(s.o.api) THEN RNeg(RInv(m)) ELSE RInv(m)
-Finite(s) == \A c \in 1..Len(s.vals) : ~RIsZero(Mu(s.p, s.vals[c].id))
+LamOrOm2(s, id) == LET m == Mu(s.p, id) IN IF IsLb(s.o.api) THEN RNeg(RInv(m)) ELSE RInv(m)
 ScalingWith(s, t) ==
     LET p2 == [s.p EXCEPT !.s = RMul(s.p.s, t)]
         s2 == Outcome(p2, s.o, s.dev)
-    IN (Done(s) /\ Known(s) /\ Finite(s) /\ s.o.sparse /\ (IF IsLb(s.o.api) THEN Regime(s.p) /\ Regime(p2) ELSE s.o.sort)) =>
-         (Done(s2) /\ Finite(s2) /\ Len(s2.vals) = Len(s.vals)
-            /\ \A c \in 1..Len(s.vals) : RMul(LamOrOm2(s2, c), t) = LamOrOm2(s, c))
+        c1 == Claimed(s)
+        c2 == Claimed(s2)
+    IN (Finished(s) /\ Known(s) /\ s.o.sparse /\ (IF IsLb(s.o.api) THEN Regime(s.p) /\ Regime(p2) ELSE s.o.sort)) =>
+         (Finished(s2) /\ Len(c2) = Len(c1)
+            /\ \A c \in 1..Len(c1) : RMul(LamOrOm2(s2, c2[c]), t) = LamOrOm2(s, c1[c]))
          \/ (~IsLb(s.o.api) /\ D(s, KF_C06_RoundedSort) /\ (Collision(s.p) \/ Collision(p2)))
 Scaling(s) == ScalingWith(s, Q(2,1)) /\ ScalingWith(s, Q(1,2))
 (* the shape arithmetic is well defined: the wrapper raises only where a listed finding says so *)
